@@ -50,6 +50,9 @@ class Scratch:
         return d
 
     def cleanup(self):
+        if os.environ.get("VF_KEEP"):   # development aid: keep traces and TLC output
+            log("scratch kept:", self.dir)
+            return
         shutil.rmtree(self.dir, ignore_errors=True)
 
 
